@@ -116,6 +116,8 @@ func propC18(t *rapid.T) {
 	{
 		n := rapid.IntRange(1, 30).Draw(t, "rows")
 		cells := make([]*string, n)
+		// now and then every cell is in upper case: the columns can then be the output of the ToUpper built-in (below)
+		upperCells := rapid.IntRange(0, 5).Draw(t, "uppercells") == 0
 		nonASCII, growth := false, false
 		prevLen := 0
 		for r := range cells {
@@ -123,6 +125,9 @@ func propC18(t *rapid.T) {
 				continue
 			}
 			c := genLikeCell(t)
+			if upperCells && utf8.ValidString(c) {
+				c = strings.ToUpper(c)
+			}
 			cells[r] = &c
 			if !isASCII(c) {
 				nonASCII = true
@@ -262,6 +267,28 @@ func propC18(t *rapid.T) {
 		if qf.Err != nil {
 			t.Fatalf("build: %v\n%s", qf.Err, desc())
 		}
+		if upperCells && rapid.Bool().Draw(t, "viatoupper") {
+			// the same cells, written by the ToUpper built-in from their lower-case forms (columns the built-in made are
+			// columns like any other)
+			low := hx.Table{Cols: append([]hx.Col(nil), tab.Cols...)}
+			var made []string
+			for i := 0; i < 2; i++ {
+				if hx.Lowerable(low.Cols[i]) {
+					low.Cols[i] = hx.Lowered(low.Cols[i])
+					made = append(made, low.Cols[i].Name)
+				}
+			}
+			if len(made) > 0 {
+				up := hx.Build(low)
+				for _, name := range made {
+					up = up.Apply(qframe.Instruction{Fn: "ToUpper", DstCol: name, SrcCol1: name})
+				}
+				if obs, err := hx.Observe(up); err == nil && up.Err == nil && hx.Diff(tab, obs) == "" {
+					qf = up
+					preludeName = fmt.Sprintf("(columns %q written by the ToUpper built-in) ", made)
+				}
+			}
+		}
 		// the same rows in another order (a sorted frame: complete, but not in storage order)
 		if rapid.IntRange(0, 2).Draw(t, "sortedfirst") == 0 && n > 1 {
 			qf = qf.Sort(qframe.Order{Column: "id", Reverse: true})
@@ -279,7 +306,7 @@ func propC18(t *rapid.T) {
 		// an earlier use of the same columns: a related filter on the frame, the same filter on a part of it or on an
 		// upper-cased copy of it - the checked filter below must not care (its results are what counts)
 		prelude := rapid.SampledFrom([]string{"", "", "", "swapcase", "othercomp", "slicefirst", "filterfirst", "upperfirst", "samefilter"}).Draw(t, "prelude")
-		preludeName = prelude
+		preludeName += prelude
 		if prelude != "" {
 			_ = hx.Safely(func() {
 				for _, col := range []string{"s", "e"} {
